@@ -17,7 +17,6 @@
 (* an offset close to 2^32 to a model over small numbers to test that).    *)
 (***************************************************************************)
 EXTENDS Integers, Sequences, FiniteSets, TLC
-LOCAL SX == INSTANCE SequencesExt
 
 CONSTANT MaxAckSet        \* 50 in acks.go
 
@@ -68,10 +67,13 @@ Denote(p, rs) == (0..(p - 1)) \cup UNION {From(rs[i])..To(rs[i]) : i \in 1..Len(
 
 (* the canonical representation of a set, computed independently of AddRange *)
 CanonPrefix(S) == CHOOSE p \in 0..(Cardinality(S)) : p \notin S /\ \A q \in 0..(p - 1) : q \in S
+RECURSIVE SetToSeq(_)
+SetToSeq(T) == IF T = {} THEN <<>> ELSE LET x == CHOOSE x \in T : TRUE IN <<x>> \o SetToSeq(T \ {x})
+Sorted(T) == SortSeq(SetToSeq(T), <)
 CanonRanges(S) ==
   LET p  == CanonPrefix(S)
-      st == SX!SetToSortSeq({x \in S : x > p /\ (x - 1) \notin S}, <)     \* first numbers of the runs
-      en == SX!SetToSortSeq({x \in S : x > p /\ (x + 1) \notin S}, <)     \* last numbers of the runs
+      st == Sorted({x \in S : x > p /\ (x - 1) \notin S})     \* first numbers of the runs
+      en == Sorted({x \in S : x > p /\ (x + 1) \notin S})     \* last numbers of the runs
   IN [i \in 1..Len(st) |-> <<st[i], en[i]>>]
 
 ---------------------------------------------------------------------------
